@@ -1,6 +1,287 @@
-//! C04 — not implemented yet.
+//! C04 — rotation builders yield proper right-handed rotations, consistent across types.
+
+use vek::mat::repr_c::column_major as cm;
+use vek::mat::repr_c::row_major as rm;
+use vek::quaternion::repr_c::Quaternion;
+use vek::vec::repr_c::{Vec2, Vec3, Vec4};
+use vkit::gens;
+use vkit::refmath as rf;
+use vkit::vk::{self, MatN};
 use vkit::*;
 
+/// A non-zero axis together with its exact unit direction. `Rat`: Pythagorean vector times a rational
+/// factor of either sign; floats: additionally arbitrary vectors (unit direction computed in f64).
+fn gen_axis<S: Dom>(t: &mut Tape, cx: &mut Cx) -> ([S; 3], [S; 3]) {
+    if S::EXACT || t.bool() {
+        let (v, len) = gens::pythagorean3(t);
+        let ln = t.int(1, 9);
+        let ld = t.pick(&[1i64, 1, 2, 3, 5]);
+        let neg = t.chance(80);
+        if neg {
+            cx.label("negative-axis-scale");
+        }
+        let lam = if neg { S::q(-ln, ld) } else { S::q(ln, ld) };
+        let axis = [S::i(v[0]) * lam, S::i(v[1]) * lam, S::i(v[2]) * lam];
+        let sg = if neg { -1 } else { 1 };
+        let unit = [S::q(sg * v[0], len), S::q(sg * v[1], len), S::q(sg * v[2], len)];
+        if ln != ld {
+            cx.label("non-unit-axis");
+        }
+        (axis, unit)
+    } else {
+        let mag = t.pick(&[1.0f64, 1e-3, 1e3, 0.37, 12.5]);
+        let mut v = [t.range_f64(-1.0, 1.0), t.range_f64(-1.0, 1.0), t.range_f64(-1.0, 1.0)];
+        if v.iter().map(|x| x * x).sum::<f64>() < 1e-4 {
+            v = [0.3, -0.5, 0.8];
+        }
+        let n = v.iter().map(|x| x * x).sum::<f64>().sqrt();
+        let unit = [v[0] / n, v[1] / n, v[2] / n];
+        cx.label("non-unit-axis");
+        let f = |x: f64| <S as num_traits::NumCast>::from(x).unwrap();
+        ([f(v[0] * mag), f(v[1] * mag), f(v[2] * mag)], [f(unit[0]), f(unit[1]), f(unit[2])])
+    }
+}
+
+fn upper3<S: Dom>(m: &[[S; 4]; 4]) -> [[S; 3]; 3] {
+    let mut r = [[S::zero(); 3]; 3];
+    for i in 0..3 {
+        for j in 0..3 {
+            r[i][j] = m[i][j];
+        }
+    }
+    r
+}
+
+fn is_embedding<S: Dom>(m: &[[S; 4]; 4]) -> bool {
+    let (z, o) = (S::zero(), S::one());
+    m[3] == [z, z, z, o] && m[0][3] == z && m[1][3] == z && m[2][3] == z
+}
+
+const K: f64 = 256.0;
+
+macro_rules! inplace1 {
+    ($cx:expr, $m:expr, $call:ident, $ret:ident, $a:expr, $what:expr) => {{
+        let mut x = $m;
+        x.$call($a);
+        check_eq!($cx, x.to_arr(), $m.$ret($a).to_arr(), $what);
+    }};
+}
+macro_rules! inplace2 {
+    ($cx:expr, $m:expr, $call:ident, $ret:ident, $a:expr, $b:expr, $what:expr) => {{
+        let mut x = $m;
+        x.$call($a, $b);
+        check_eq!($cx, x.to_arr(), $m.$ret($a, $b).to_arr(), $what);
+    }};
+}
+
+macro_rules! rot_case {
+    ($fname:ident, $l:ident, $lname:expr) => {
+        fn $fname<S: Dom>(t: &mut Tape, cx: &mut Cx) -> CaseResult {
+            let theta = S::angle(t);
+            let (s, c) = (theta.sin(), theta.cos());
+            let (axis, k) = gen_axis::<S>(t, cx);
+            let v: [S; 3] = vk::gen_vec(t, 9);
+            let nz = k.iter().filter(|x| !x.is_zero()).count();
+            cx.set_nontrivial(!s.is_zero() && !c.is_zero() && c != S::one() && c != -S::one() && nz >= 2);
+            sample!(cx, "{} {} theta={:?} (sin {:?}, cos {:?}) axis={:?} unit={:?} v={:?}", S::NAME, $lname, theta, s, c, axis, k, v);
+            let vmax = vk::vec_max(&v).max(1.0);
+            let id3: [[S; 3]; 3] = rf::identity();
+
+            // --- Mat4 / Mat3 rotation_3d
+            let r4 = $l::Mat4::<S>::rotation_3d(theta, vk::v3(&axis)).to_arr();
+            let r3 = $l::Mat3::<S>::rotation_3d(theta, vk::v3(&axis)).to_arr();
+            check!(cx, is_embedding(&r4), "Mat4::rotation_3d last row/column is not e4: {:?}", r4);
+            check_mat!(cx, S, upper3(&r4), r3, 1.0, K, "Mat3::rotation_3d is the upper-left block of Mat4::rotation_3d");
+            // (1) orthogonal, det +1
+            check_mat!(cx, S, rf::matmul(&rf::transpose(&r3), &r3), id3, 1.0, K, "R^T R = I");
+            check_close!(cx, S, rf::det(&r3), S::one(), 1.0, K, "det R = +1");
+            // (2) fixes its axis
+            check_vec!(cx, S, rf::matvec(&r3, &k), k, 1.0, K, "R k = k");
+            // (4) axis-angle definition on a random vector
+            check_vec!(cx, S, rf::matvec(&r3, &v), rf::rodrigues(&v, &k, s, c), vmax, K, "R v = v cos + (k x v) sin + k (k.v)(1-cos)");
+            // vek's own matrix*vector product agrees
+            check_vec!(cx, S, vk::a3(&($l::Mat3::<S>::rotation_3d(theta, vk::v3(&axis)) * vk::v3(&v))), rf::rodrigues(&v, &k, s, c), vmax, K, "Mat3 * v");
+            // (6) axis scaling: positive multiple same rotation, negative multiple the inverse rotation
+            {
+                let unit_rot = $l::Mat3::<S>::rotation_3d(theta, vk::v3(&k)).to_arr();
+                check_mat!(cx, S, r3, unit_rot, 1.0, K, "rotation_3d(theta, axis) = rotation_3d(theta, axis/|axis|)");
+                let neg_axis = [-axis[0], -axis[1], -axis[2]];
+                let inv = $l::Mat3::<S>::rotation_3d(-theta, vk::v3(&neg_axis)).to_arr();
+                check_mat!(cx, S, inv, r3, 1.0, K, "rotation_3d(-theta, -axis) = rotation_3d(theta, axis)");
+                let back = $l::Mat3::<S>::rotation_3d(-theta, vk::v3(&axis)).to_arr();
+                check_mat!(cx, S, rf::matmul(&back, &r3), id3, 1.0, K, "rotation_3d(-theta, axis) undoes rotation_3d(theta, axis)");
+            }
+            // (3) + (7) handedness anchors and axis-aligned constructors
+            let (z, o) = (S::zero(), S::one());
+            let rx = $l::Mat3::<S>::rotation_x(theta).to_arr();
+            let ry = $l::Mat3::<S>::rotation_y(theta).to_arr();
+            let rz = $l::Mat3::<S>::rotation_z(theta).to_arr();
+            check_vec!(cx, S, rf::matvec(&rz, &[o, z, z]), [c, s, z], 1.0, K, "rotation_z * x = (cos, sin, 0)");
+            check_vec!(cx, S, rf::matvec(&rx, &[z, o, z]), [z, c, s], 1.0, K, "rotation_x * y = (0, cos, sin)");
+            check_vec!(cx, S, rf::matvec(&ry, &[z, z, o]), [s, z, c], 1.0, K, "rotation_y * z = (sin, 0, cos)");
+            check_mat!(cx, S, rx, [[o, z, z], [z, c, -s], [z, s, c]], 1.0, K, "Mat3::rotation_x");
+            check_mat!(cx, S, ry, [[c, z, s], [z, o, z], [-s, z, c]], 1.0, K, "Mat3::rotation_y");
+            check_mat!(cx, S, rz, [[c, -s, z], [s, c, z], [z, z, o]], 1.0, K, "Mat3::rotation_z");
+            check_mat!(cx, S, $l::Mat3::<S>::rotation_3d(theta, Vec3::<S>::unit_x()).to_arr(), rx, 1.0, K, "rotation_3d(theta, unit_x) = rotation_x");
+            check_mat!(cx, S, $l::Mat3::<S>::rotation_3d(theta, Vec3::<S>::unit_y()).to_arr(), ry, 1.0, K, "rotation_3d(theta, unit_y) = rotation_y");
+            check_mat!(cx, S, $l::Mat3::<S>::rotation_3d(theta, Vec3::<S>::unit_z()).to_arr(), rz, 1.0, K, "rotation_3d(theta, unit_z) = rotation_z");
+            // (8) Mat4 variants embed the Mat3 ones; Mat2 is the upper-left block of Mat3::rotation_z
+            for (name, m4, m3) in [
+                ("x", $l::Mat4::<S>::rotation_x(theta).to_arr(), rx),
+                ("y", $l::Mat4::<S>::rotation_y(theta).to_arr(), ry),
+                ("z", $l::Mat4::<S>::rotation_z(theta).to_arr(), rz),
+            ] {
+                check!(cx, is_embedding(&m4), "Mat4::rotation_{} last row/column is not e4: {:?}", name, m4);
+                check_mat!(cx, S, upper3(&m4), m3, 1.0, K, "Mat4::rotation_{} upper-left block = Mat3::rotation_{}", name, name);
+            }
+            let r2 = $l::Mat2::<S>::rotation_z(theta).to_arr();
+            check_mat!(cx, S, r2, [[c, -s], [s, c]], 1.0, K, "Mat2::rotation_z");
+            // (10) Vec2 rotation
+            let v2 = [v[0], v[1]];
+            let want2 = [c * v2[0] - s * v2[1], s * v2[0] + c * v2[1]];
+            check_vec!(cx, S, vk::a2(&vk::v2(&v2).rotated_z(theta)), want2, vmax, K, "Vec2::rotated_z");
+            check_vec!(cx, S, vk::a2(&($l::Mat2::<S>::rotation_z(theta) * vk::v2(&v2))), want2, vmax, K, "Mat2::rotation_z * v");
+            let mut vv = vk::v2(&v2);
+            vv.rotate_z(theta);
+            check_vec!(cx, S, vk::a2(&vv), want2, vmax, K, "Vec2::rotate_z (in place)");
+            check_vec!(cx, S, vk::a2(&Vec2::<S>::unit_x().rotated_z(theta)), [c, s], 1.0, K, "unit_x.rotated_z = (cos, sin)");
+
+            // (9) quaternion for (angle, axis) gives the same matrix, and acts on vectors like it
+            let q = Quaternion::<S>::rotation_3d(theta, vk::v3(&axis));
+            check_mat!(cx, S, $l::Mat3::<S>::from(q).to_arr(), r3, 1.0, K, "Mat3::from(Quaternion::rotation_3d) = Mat3::rotation_3d");
+            check_mat!(cx, S, $l::Mat4::<S>::from(q).to_arr(), r4, 1.0, K, "Mat4::from(Quaternion::rotation_3d) = Mat4::rotation_3d");
+            check_vec!(cx, S, vk::a3(&(q * vk::v3(&v))), rf::rodrigues(&v, &k, s, c), vmax, K, "quaternion * v");
+            check_mat!(cx, S, $l::Mat3::<S>::from(Quaternion::<S>::rotation_x(theta)).to_arr(), rx, 1.0, K, "Mat3::from(Quaternion::rotation_x)");
+            check_mat!(cx, S, $l::Mat3::<S>::from(Quaternion::<S>::rotation_y(theta)).to_arr(), ry, 1.0, K, "Mat3::from(Quaternion::rotation_y)");
+            check_mat!(cx, S, $l::Mat3::<S>::from(Quaternion::<S>::rotation_z(theta)).to_arr(), rz, 1.0, K, "Mat3::from(Quaternion::rotation_z)");
+            let qn = q.x * q.x + q.y * q.y + q.z * q.z + q.w * q.w;
+            check_close!(cx, S, qn, S::one(), 1.0, K, "Quaternion::rotation_3d is a unit quaternion");
+
+            // (11) chained / in-place variants pre-multiply
+            let m: [[S; 4]; 4] = vk::gen_mat(t, 5);
+            let mm = vk::mat_max(&m).max(1.0) * 4.0;
+            let m4 = $l::Mat4::<S>::from_arr(&m);
+            let m3a = upper3(&m);
+            let m3 = $l::Mat3::<S>::from_arr(&m3a);
+            let embed = |r: &[[S; 3]; 3]| gens::embed4(r, &[z, z, z]);
+            check_mat!(cx, S, m4.rotated_x(theta).to_arr(), rf::matmul(&embed(&rx), &m), mm, K, "Mat4::rotated_x = rotation_x * m");
+            check_mat!(cx, S, m4.rotated_y(theta).to_arr(), rf::matmul(&embed(&ry), &m), mm, K, "Mat4::rotated_y = rotation_y * m");
+            check_mat!(cx, S, m4.rotated_z(theta).to_arr(), rf::matmul(&embed(&rz), &m), mm, K, "Mat4::rotated_z = rotation_z * m");
+            check_mat!(cx, S, m4.rotated_3d(theta, vk::v3(&axis)).to_arr(), rf::matmul(&r4, &m), mm, K, "Mat4::rotated_3d = rotation_3d * m");
+            check_mat!(cx, S, m3.rotated_x(theta).to_arr(), rf::matmul(&rx, &m3a), mm, K, "Mat3::rotated_x = rotation_x * m");
+            check_mat!(cx, S, m3.rotated_y(theta).to_arr(), rf::matmul(&ry, &m3a), mm, K, "Mat3::rotated_y = rotation_y * m");
+            check_mat!(cx, S, m3.rotated_z(theta).to_arr(), rf::matmul(&rz, &m3a), mm, K, "Mat3::rotated_z = rotation_z * m");
+            check_mat!(cx, S, m3.rotated_3d(theta, vk::v3(&axis)).to_arr(), rf::matmul(&r3, &m3a), mm, K, "Mat3::rotated_3d = rotation_3d * m");
+            let m2a = [[m[0][0], m[0][1]], [m[1][0], m[1][1]]];
+            let m2 = $l::Mat2::<S>::from_arr(&m2a);
+            check_mat!(cx, S, m2.rotated_z(theta).to_arr(), rf::matmul(&r2, &m2a), mm, K, "Mat2::rotated_z = rotation_z * m");
+            inplace1!(cx, m4, rotate_x, rotated_x, theta, "Mat4::rotate_x == rotated_x");
+            inplace1!(cx, m4, rotate_y, rotated_y, theta, "Mat4::rotate_y == rotated_y");
+            inplace1!(cx, m4, rotate_z, rotated_z, theta, "Mat4::rotate_z == rotated_z");
+            inplace2!(cx, m4, rotate_3d, rotated_3d, theta, vk::v3(&axis), "Mat4::rotate_3d == rotated_3d");
+            inplace1!(cx, m3, rotate_x, rotated_x, theta, "Mat3::rotate_x == rotated_x");
+            inplace1!(cx, m3, rotate_y, rotated_y, theta, "Mat3::rotate_y == rotated_y");
+            inplace1!(cx, m3, rotate_z, rotated_z, theta, "Mat3::rotate_z == rotated_z");
+            inplace2!(cx, m3, rotate_3d, rotated_3d, theta, vk::v3(&axis), "Mat3::rotate_3d == rotated_3d");
+            inplace1!(cx, m2, rotate_z, rotated_z, theta, "Mat2::rotate_z == rotated_z");
+            Ok(())
+        }
+    };
+}
+rot_case!(rot_rows, rm, "row-major");
+rot_case!(rot_cols, cm, "col-major");
+
+/// Additivity for a common axis, and quaternion chained variants.
+fn additive<S: Dom>(t: &mut Tape, cx: &mut Cx) -> CaseResult {
+    let a = S::angle(t);
+    let b = S::angle(t);
+    let ab = match S::angle_sum(a, b) {
+        Some(x) => x,
+        None => discard!("angle-sum"),
+    };
+    let (axis, k) = gen_axis::<S>(t, cx);
+    let (sa, ca) = (a.sin(), a.cos());
+    cx.set_nontrivial(!sa.is_zero() && !ca.is_zero() && !b.sin().is_zero() && k.iter().filter(|x| !x.is_zero()).count() >= 2);
+    sample!(cx, "{} a={:?} b={:?} axis={:?}", S::NAME, a, b, axis);
+    let ax = vk::v3(&axis);
+    macro_rules! both {
+        ($l:ident, $n:expr) => {{
+            let ra = $l::Mat3::<S>::rotation_3d(a, ax).to_arr();
+            let rb = $l::Mat3::<S>::rotation_3d(b, ax).to_arr();
+            let rab = $l::Mat3::<S>::rotation_3d(ab, ax).to_arr();
+            check_mat!(cx, S, rf::matmul(&ra, &rb), rab, 1.0, K, "{} Mat3 R(a,k) R(b,k) = R(a+b,k)", $n);
+            check_mat!(cx, S, ($l::Mat4::<S>::rotation_3d(a, ax) * $l::Mat4::<S>::rotation_3d(b, ax)).to_arr(), $l::Mat4::<S>::rotation_3d(ab, ax).to_arr(), 1.0, K, "{} Mat4 R(a,k) R(b,k) = R(a+b,k)", $n);
+            check_mat!(cx, S, ($l::Mat4::<S>::rotation_3d(b, ax).rotated_3d(a, ax)).to_arr(), $l::Mat4::<S>::rotation_3d(ab, ax).to_arr(), 1.0, K, "{} Mat4 rotation_3d(b).rotated_3d(a) = R(a+b)", $n);
+            for (name, f2) in [
+                ("x", $l::Mat3::<S>::rotation_x as fn(S) -> $l::Mat3<S>),
+                ("y", $l::Mat3::<S>::rotation_y as fn(S) -> $l::Mat3<S>),
+                ("z", $l::Mat3::<S>::rotation_z as fn(S) -> $l::Mat3<S>),
+            ] {
+                check_mat!(cx, S, rf::matmul(&f2(a).to_arr(), &f2(b).to_arr()), f2(ab).to_arr(), 1.0, K, "{} Mat3 rotation_{}(a) rotation_{}(b) = rotation_{}(a+b)", $n, name, name, name);
+            }
+            check_mat!(cx, S, rf::matmul(&$l::Mat2::<S>::rotation_z(a).to_arr(), &$l::Mat2::<S>::rotation_z(b).to_arr()), $l::Mat2::<S>::rotation_z(ab).to_arr(), 1.0, K, "{} Mat2 rotation_z additive", $n);
+        }};
+    }
+    both!(rm, "row-major");
+    both!(cm, "col-major");
+    // quaternions: composition = Hamilton product (reference), chained variants pre-multiply, rotation matrices agree
+    let qa = Quaternion::<S>::rotation_3d(a, ax);
+    let qb = Quaternion::<S>::rotation_3d(b, ax);
+    let arr = |q: Quaternion<S>| [q.w, q.x, q.y, q.z];
+    let want = rf::hamilton(&arr(qa), &arr(qb));
+    check_vec!(cx, S, arr(qb.rotated_3d(a, ax)), want, 1.0, K, "q.rotated_3d(a, k) = rotation_3d(a, k) * q");
+    let qab = Quaternion::<S>::rotation_3d(ab, ax);
+    // q(a+b) = +-(qa*qb): same rotation
+    check_mat!(cx, S, cm::Mat3::<S>::from(qab).to_arr(), cm::Mat3::<S>::from(qa * qb).to_arr(), 1.0, K, "matrix of rotation_3d(a+b) = matrix of rotation_3d(a)*rotation_3d(b)");
+    let mut qi = qb;
+    qi.rotate_3d(a, ax);
+    check_eq!(cx, arr(qi), arr(qb.rotated_3d(a, ax)), "Quaternion::rotate_3d == rotated_3d");
+    for (name, build, chained, inplace) in [
+        ("x", Quaternion::<S>::rotation_x as fn(S) -> Quaternion<S>, Quaternion::<S>::rotated_x as fn(Quaternion<S>, S) -> Quaternion<S>, Quaternion::<S>::rotate_x as fn(&mut Quaternion<S>, S)),
+        ("y", Quaternion::<S>::rotation_y, Quaternion::<S>::rotated_y, Quaternion::<S>::rotate_y),
+        ("z", Quaternion::<S>::rotation_z, Quaternion::<S>::rotated_z, Quaternion::<S>::rotate_z),
+    ] {
+        let want = rf::hamilton(&arr(build(a)), &arr(qb));
+        check_vec!(cx, S, arr(chained(qb, a)), want, 1.0, K, "Quaternion::rotated_{} = rotation_{} * q", name, name);
+        let mut qi = qb;
+        inplace(&mut qi, a);
+        check_eq!(cx, arr(qi), arr(chained(qb, a)), "Quaternion::rotate_{} == rotated_{}", name, name);
+    }
+    // 4D application keeps w
+    let v4 = Vec4 { x: S::i(3), y: S::i(-2), z: S::i(5), w: S::q(7, 3) };
+    let r = qa * v4;
+    let r3 = qa * Vec3 { x: v4.x, y: v4.y, z: v4.z };
+    check_eq!(cx, [r.x, r.y, r.z], [r3.x, r3.y, r3.z], "q * Vec4 rotates xyz like q * Vec3");
+    check_eq!(cx, r.w, v4.w, "q * Vec4 keeps w");
+    Ok(())
+}
+
 pub fn property() -> Property {
-    Property { id: "C04", rule: "", assumptions: &[], checks: Vec::new(), max_discard_frac: 0.2 }
+    let mut checks = Vec::new();
+    macro_rules! tape {
+        ($name:expr, $about:expr, $len:expr, $q:expr, $th:expr, $f:expr) => {
+            checks.push(Check { name: $name, about: $about, kind: Kind::Tape { len: $len, quick: $q, thorough: $th, f: $f } });
+        };
+    }
+    let a = "rotation_3d / rotation_x/y/z (Mat2, Mat3, Mat4), quaternion and Vec2 rotation for a generated angle and non-unit axis: orthogonal, det +1, fixes the axis, equals the axis-angle definition on a random vector, handedness anchors, axis scaling law, Mat3 = block of Mat4, quaternion-derived matrix equal, chained/in-place variants pre-multiply";
+    tape!("rotations-rows-rat", a, 96, 20_000, 500_000, rot_rows::<Rat>);
+    tape!("rotations-cols-rat", a, 96, 20_000, 500_000, rot_cols::<Rat>);
+    tape!("rotations-rows-f64", a, 192, 20_000, 500_000, rot_rows::<f64>);
+    tape!("rotations-cols-f64", a, 192, 20_000, 500_000, rot_cols::<f64>);
+    tape!("rotations-rows-f32", a, 192, 10_000, 250_000, rot_rows::<f32>);
+    tape!("rotations-cols-f32", a, 192, 10_000, 250_000, rot_cols::<f32>);
+    let b = "rotations about a common axis compose additively (Mat2/3/4, both layouts, axis-aligned and arbitrary axis); quaternion chained/in-place variants equal the Hamilton product with the constructor; q*Vec4 keeps w";
+    tape!("additive-rat", b, 48, 20_000, 500_000, additive::<Rat>);
+    tape!("additive-f64", b, 96, 20_000, 500_000, additive::<f64>);
+    Property {
+        id: "C04",
+        rule: "angles: registered rational-trigonometry angles (tan(theta/4) rational, so sin/cos of theta and theta/2 are exact) for Rat, random and special angles in (-2pi,2pi) for floats; axes: Pythagorean integer vectors times a rational factor of either sign (exact unit direction known), plus arbitrary float axes of length 1e-3..1e3; non-trivial = sin != 0, cos not in {0,+-1}, axis with >= 2 non-zero components; distinct = distinct consumed tape prefix",
+        assumptions: &[
+            "rustc and the proptest runner/shrinker are trusted",
+            "oracle: axis-angle (Rodrigues) definition and Hamilton table in vkit::refmath; sin/cos come from the scalar domain (registered angles for Rat), not from vek",
+            "float tolerance 256*eps*max(1,|v|)",
+        ],
+        checks,
+        max_discard_frac: 0.1,
+    }
 }
